@@ -8,6 +8,7 @@ package gabi
 import (
 	"github.com/privacybydesign/gabi/big"
 	"github.com/privacybydesign/gabi/internal/common"
+	"github.com/privacybydesign/gabi/revocation"
 )
 
 func VerifHashCommit(values []*big.Int, issig bool) *big.Int { return common.HashCommit(values, issig) }
@@ -46,4 +47,20 @@ func (b *CredentialBuilder) VerifState() (secret, vPrime, vPrimeCommit, u, skRan
 
 func VerifGetUndisclosedAttributes(disclosed []int, n int) []int {
 	return getUndisclosedAttributes(disclosed, n)
+}
+
+// VerifNonrevBuilder exposes the non-revocation part of a disclosure proof builder.
+func (d *DisclosureProofBuilder) VerifNonrevBuilder() *NonRevocationProofBuilder { return d.nonrevBuilder }
+
+// VerifState exposes the state of a NonRevocationProofBuilder.
+func (b *NonRevocationProofBuilder) VerifState() (commit *revocation.ProofCommit, commitments []*big.Int, randomizer *big.Int, index uint64) {
+	return b.commit, b.commitments, b.randomizer, b.index
+}
+
+// VerifNonrevCacheLen reports whether a prepared builder sits in the credential's cache.
+func (ic *Credential) VerifNonrevCacheLen() int {
+	if ic.nonrevCache == nil {
+		return -1
+	}
+	return len(ic.nonrevCache)
 }
